@@ -39,6 +39,7 @@ type Contract struct {
 	Trusted    bool // body not verified (external / assumed contract)
 	QuietFrame bool // modifies clause is checked and propagated, but no automatic frame facts are assumed at call sites (the contract states its frame explicitly)
 	SplitPaths bool // top-level if statements are followed path by path instead of merged
+	KindHints  []KindHint // hint <regexp on kind/label> using tags: proof hints for generated obligations (call-requires, frame-call, panic/...)
 	Dispatch   map[string]string // func-valued variable -> literal key: calls through it are calls of that closure (its code is checked at the call)
 	TailSplit  bool // a top-level if followed only by the final return is not merged: the postconditions are checked per branch
 	Pure       bool
@@ -53,6 +54,11 @@ type Contract struct {
 
 // AfterClause: ghost assignment executed right after the first statement whose
 // source text starts with Match:   after "stmt prefix" set gv = expr
+type KindHint struct {
+	Re    *regexp.Regexp
+	Using []string
+}
+
 type AfterClause struct {
 	Match  string
 	Before bool
@@ -113,7 +119,7 @@ type SpecFile struct {
 
 var clauseKw = map[string]bool{
 	"func": true, "requires": true, "ensures": true, "assigns": true, "modifies": true, "loop": true, "decreases": true,
-	"ghost": true, "after": true, "before": true, "uf": true, "lemma": true, "axiom": true, "trusted": true, "pure": true, "split-paths": true, "tail-split": true, "dispatch": true, "quietframe": true, "opaque": true, "pred": true, "xpred": true,
+	"ghost": true, "after": true, "before": true, "uf": true, "lemma": true, "axiom": true, "trusted": true, "pure": true, "split-paths": true, "tail-split": true, "dispatch": true, "hint": true, "quietframe": true, "opaque": true, "pred": true, "xpred": true,
 	"sort": true, "closedtype": true, "immutable": true, "ghostvar": true, "ghostfield": true, "free": true, "extern": true, "assume-note": true, "end": true,
 }
 
@@ -283,6 +289,17 @@ func ParseSpecFile(path, pkgName, pkgPath string, sf *SpecFile) error {
 			if cur != nil {
 				cur.TailSplit = true
 			}
+		case "hint":
+			// hint <regexp> using a, b, c
+			idx := strings.Index(rest, " using ")
+			if cur == nil || idx < 0 {
+				return fmt.Errorf("%s:%d: hint <regexp> using tags", path, rc.line)
+			}
+			re, err := regexp.Compile(strings.TrimSpace(rest[:idx]))
+			if err != nil {
+				return fmt.Errorf("%s:%d: hint: %v", path, rc.line, err)
+			}
+			cur.KindHints = append(cur.KindHints, KindHint{Re: re, Using: splitUsing(rest[idx+7:])})
 		case "dispatch":
 			// dispatch <var> "<literal key>"
 			f2 := strings.Fields(rest)
